@@ -137,12 +137,85 @@ func runCP(c *Ctx, s *Sink) {
 			if n.Kind != "ConditionalOperator" || len(n.Inner) != 3 {
 				return
 			}
-			ncond++
 			v, ok := cIntValue(n.Inner[2])
+			if !ok {
+				// an inner choice between two symbols (u read as t), not the letter / non-letter decision
+				if _, isConst := cIntValue(n.Inner[1]); isConst {
+					return
+				}
+			}
+			ncond++
 			if !ok || !noBase[v] {
 				badLine, badVal, isBad = n.Range.Begin.Line, v, true
 			}
 		})
+		// (1quater) u is read as t, as the pattern table does
+		keyU := "pkg/obiapat/obiapat.c:EncodeSequence:u-read-as-t"
+		hasU, hasT := false, false
+		fn.walk(func(n *cnode, _ []*cnode) {
+			if n.Kind == "CharacterLiteral" {
+				if v, ok := cIntValue(n); ok {
+					if v == 'u' {
+						hasU = true
+					}
+					if v == 't' {
+						hasT = true
+					}
+				}
+			}
+		})
+		{
+			var o *Ob
+			if hasU && hasT {
+				o = s.add(Pass, nil, keyU, 0, "the encoder of the sequences names u and t: an RNA symbol gets the code of t")
+			} else {
+				o = s.add(Violation, nil, keyU, 0, "the sequence encoder gives u its own rank (20), a bit no pattern position holds (the pattern table codes U as T): the text acguac is matched by none of ACGUAC, ACGTAC, ACGNAC — obipcr and obigrep --approx-pattern ignore an RNA record (SILVA) and find its DNA twin, and the reverse complement of the record (u becomes a) is matched")
+			}
+			o.Pos = fmt.Sprintf("pkg/obiapat/obiapat.c:%d", cLine(fn))
+		}
+		// (1quinquies) an empty sequence has no repeat: the modulo by its length is never evaluated
+		keyE := "pkg/obiapat/obiapat.c:new_apatseq:no-repeat-for-an-empty-sequence"
+		if fn2, err := clangFunc(dir, "obiapat.c", "new_apatseq"); err != nil {
+			s.Undecided(nil, keyE, 0, err.Error())
+		} else {
+			guarded := false
+			fn2.walk(func(n *cnode, _ []*cnode) {
+				if n.Kind != "IfStmt" || len(n.Inner) < 2 {
+					return
+				}
+				names := cDeclRefNames(n.Inner[0])
+				hasC, hasL := false, false
+				for _, v := range names {
+					if v == "circular" {
+						hasC = true
+					}
+					if v == "seqlen" {
+						hasL = true
+					}
+				}
+				// … and the statement decides the repeat (it assigns circular)
+				assigns := false
+				n.walk(func(m *cnode, _ []*cnode) {
+					if m.Kind == "BinaryOperator" && m.Op == "=" && len(m.Inner) == 2 {
+						for _, v := range cDeclRefNames(m.Inner[0]) {
+							if v == "circular" {
+								assigns = true
+							}
+						}
+					}
+				})
+				if hasC && hasL && assigns {
+					guarded = true
+				}
+			})
+			var o *Ob
+			if guarded {
+				o = s.add(Pass, nil, keyE, 0, "the repeat of a circular sequence is only asked for a sequence that has a length")
+			} else {
+				o = s.add(Violation, nil, keyE, 0, "a circular sequence of length 0 gets a 64-symbol repeat, filled by reading in[i % 0]: obipcr --circular on a CSV file holding a record with an empty sequence dies on SIGFPE (integer divide by zero in EncodeSequence); without --circular the other records give their amplicons")
+			}
+			o.Pos = fmt.Sprintf("pkg/obiapat/obiapat.c:%d", cLine(fn2))
+		}
 		var o *Ob
 		switch {
 		case ncond == 0:
